@@ -430,10 +430,38 @@ func (p *workerPool) watch(c *vlib.Ctx) {
 // Exploring every permitted call sequence of one (layout, bounds, snapshot).
 
 type tripleStats struct {
-	seqs     int64
-	calls    int64
-	states   map[uint64]struct{}
-	outcomes map[string]int64
+	seqs   int64
+	calls  int64
+	states map[uint64]struct{}
+	outc   [len(opNames)][2]int64 // per call kind: returned nil / returned an entry (model view)
+}
+
+var opNames = [...]string{"first", "last", "next", "prev", "seekge", "seeklt", "seekprefixge", "nextprefix", "seekge+tsun", "seekprefixge+tsun"}
+
+func opIndex(o Op) int {
+	switch o.K {
+	case "first":
+		return 0
+	case "last":
+		return 1
+	case "next":
+		return 2
+	case "prev":
+		return 3
+	case "seekge":
+		if o.TSUN {
+			return 8
+		}
+		return 4
+	case "seeklt":
+		return 5
+	case "seekprefixge":
+		if o.TSUN {
+			return 9
+		}
+		return 6
+	}
+	return 7
 }
 
 // explore runs every contract-permitted sequence of exactly `depth` calls (shorter sequences are
@@ -466,11 +494,11 @@ func explore(c *vlib.Ctx, w *worker, b *builtLSM, cs Case, depth int, tsun, pref
 			ts.seqs++
 			ts.calls += int64(depth)
 			for i := 0; i < depth; i++ {
-				if exp[i] == nil {
-					ts.outcomes[ops[i].K+"->nil"]++
-				} else {
-					ts.outcomes[ops[i].K+"->entry"]++
+				j := 0
+				if exp[i] != nil {
+					j = 1
 				}
+				ts.outc[opIndex(ops[i])][j]++
 			}
 			w.tick.Add(1)
 			w.busy.Store(true)
@@ -483,12 +511,43 @@ func explore(c *vlib.Ctx, w *worker, b *builtLSM, cs Case, depth int, tsun, pref
 					continue
 				}
 				rc := cs
-				rc.Ops = append([]Op(nil), ops[:f.step+1]...)
+				rc.Ops, f = minimize(b, &cs, v, ops[:f.step+1], f)
 				c.Violation(f.class, rc.String()+": "+f.desc, rc)
 			}
 		}
 	}
 	rec(0, mstate{idx: -1})
+}
+
+// minimize returns the shortest suffix of ops (a failing sequence, failing at its last call) that
+// is itself a permitted sequence and still fails at its last call, with that failure.
+func minimize(b *builtLSM, cs *Case, v []Pt, ops []Op, f *failure) ([]Op, *failure) {
+	for s := len(ops) - 1; s >= 1; s-- {
+		cand := ops[s:]
+		exp := make([]*Pt, len(cand))
+		st := mstate{idx: -1}
+		ok := true
+		for i, op := range cand {
+			legal := false
+			for _, lo := range legalOps(v, st, cs.Lower, cs.Upper, true) {
+				if lo == op {
+					legal = true
+				}
+			}
+			if !legal {
+				ok = false
+				break
+			}
+			st, exp[i] = step(v, st, op)
+		}
+		if !ok {
+			continue
+		}
+		if f2 := runSeq(b, nil, cs, cand, exp, false); f2 != nil && f2.step == len(cand)-1 && f2.class != "panic" {
+			return append([]Op(nil), cand...), f2
+		}
+	}
+	return append([]Op(nil), ops...), f
 }
 
 // nontrivial: at least one point entry that is visible at the read seqnum and inside the bounds
@@ -586,7 +645,7 @@ func TestCheck(t *testing.T) {
 					}
 					defer b2.close()
 				}
-				ts := &tripleStats{states: map[uint64]struct{}{}, outcomes: map[string]int64{}}
+				ts := &tripleStats{states: map[uint64]struct{}{}}
 				for _, snap := range snapshots(l, p.intra) {
 					for _, bd := range p.bounds {
 						cs := Case{LSM: l, Bloom: true, Lower: bd.lo, Upper: bd.hi, Snap: snap}
@@ -609,8 +668,13 @@ func TestCheck(t *testing.T) {
 				for h := range ts.states {
 					c.State(h)
 				}
-				for k, n := range ts.outcomes {
-					c.OutcomeN(k, n)
+				for k := range ts.outc {
+					if ts.outc[k][0] > 0 {
+						c.OutcomeN(opNames[k]+"->nil", ts.outc[k][0])
+					}
+					if ts.outc[k][1] > 0 {
+						c.OutcomeN(opNames[k]+"->entry", ts.outc[k][1])
+					}
 				}
 				if i%211 == 0 {
 					c.Sample(map[string]any{"plan": p.fam.name, "lsm": l.String()})
